@@ -273,16 +273,19 @@ def run(ctx):
     # Option/Tag opt out of name validation; they are never used as instance node names (R2) -- recorded
     # name validator raises on an invalid XML name
     sev = se.methods["validate"]
-    for valid in (True, False):
+    for valid, found in ((True, True), (False, True), (False, False)):
+        # `found`: whether the secondary "which character is wrong" search finds one (a name such as `a:` is invalid
+        # although each of its characters is allowed) - the name must be refused either way
         it = ctx.interp("C02.R4", hooks={"fnname:is_xml_tag": lambda i, a, k, n, v=valid: v,
-                                        "ext:re.search": lambda i, a, k, n: Sym("M", truthy=True, attrs={"group": lambda i2, a2, k2, n2: "?"})})
+                                        "ext:re.search": lambda i, a, k, n, f=found: Sym("M", truthy=True, attrs={"group": lambda i2, a2, k2, n2: "?"}) if f else None})
         it.reset([])
         o = Obj(se, {"name": Sym("NAME", truthy=True, pytype=str)}, name="el")
+        desc = f"SurveyElement.validate[name {'valid' if valid else 'invalid'}{'' if found or valid else ', no single offending character'}]"
         try:
             it.call_function(sev, [o], {}, None, sev.node)
-            r4.check(valid, f"SurveyElement.validate[name {'valid' if valid else 'invalid'}]", "accepts exactly valid XML names", sev.loc())
+            r4.check(valid, desc, "accepts exactly valid XML names", sev.loc())
         except Raised as r:
-            r4.check(not valid and "PyXFormError" in r.mro, f"SurveyElement.validate[name {'valid' if valid else 'invalid'}]", "invalid XML name raises PyXFormError", sev.loc())
+            r4.check(not valid and "PyXFormError" in r.mro, desc, "invalid XML name raises PyXFormError", sev.loc(), why_fail=f"raised {r.exc_name}")
     # sibling uniqueness: abstract domain {equal, case-different, distinct}
     sib = repo.cls("pyxform.section:Section").methods["_validate_uniqueness_of_element_names"]
     for desc, names, expect in (("equal", ["a", "a"], True), ("case-different", ["Age", "age"], True), ("distinct", ["a", "b"], False),
